@@ -523,6 +523,9 @@ def parse_equation_terms(equation: str) -> List[Term]:
             term = term._replace(type=new_type)
         return term
 
+    if '=' not in equation:
+        raise ParserError(f"Failed to find an assignment ('=') in: '{equation}'")
+
     left, right = equation.split('=', maxsplit=1)
 
     try:
@@ -599,8 +602,26 @@ def parse_equation(equation: str) -> List[Symbol]:
                 f'in equation: {equation}'
             )
 
+    # Braces are only valid as part of a parameter term e.g. '{alpha}'
+    # (anything else would be taken for a replacement field by `str.format()`
+    # below)
+    outside = equation
+    for match in reversed(list(term_re.finditer(equation))):
+        start, end = match.span()
+        outside = outside[:start] + outside[end:]
+    if '{' in outside or '}' in outside:
+        raise ParserError(
+            f'Found braces that do not enclose a parameter name in equation: {equation}'
+        )
+
     # Extract the terms from the equation
     terms = parse_equation_terms(equation)
+
+    # A term must lie on one side of the (first) equals sign
+    if len(terms) != len(list(term_re.finditer(equation))):
+        raise ParserError(
+            f"Found a term that spans the '=' sign in equation: {equation}"
+        )
 
     # Construct standardised and code representations of the equation
     template = equation
